@@ -47,15 +47,19 @@ VARIABLES cpc,         \* child label
           outq,        \* persistent: result stream written by the child (item numbers, then "end")
           started, finished, findone,       \* target progress (for scn)
           landedAt, landedInTarget, landedFinished, landedInWork, usAlive,
+          fi, fsig, pq, fres, fpc,     \* persistent REMOTE: the parent-side forwarding thread F (_fetch_results): position on the
+                       \* wire, end-marker forwarded?, what it put into the parent's results pipe, final result, "loop" | "done"
           ctrlAlive,   \* PROCESS/REMOTE: the child's control thread can still deliver a graceful request
           noCounter,   \* persistent: the request landed before _init_child created _counter (cleanup will fail)
           observed     \* parent's reads after death ("none" or the record d)
 vars == <<cpc, curExc, prop, asyncPend, nterm, nkill, os, tres, frames, partial, bres, usc, usframe, done, outq,
-          started, finished, findone, landedAt, landedInTarget, landedFinished, landedInWork, usAlive, ctrlAlive, noCounter, observed>>
+          started, finished, findone, landedAt, landedInTarget, landedFinished, landedInWork, usAlive, fi, fsig, pq, fres, fpc, ctrlAlive, noCounter, observed>>
+fvars == <<fi, fsig, pq, fres, fpc>>
 
 IsException(x) == x \in {"E", "WTE", "UNREB"}       \* subclasses of Exception; "BE" is not
 OwnExc == CASE Ending = "exc" -> "E" [] Ending = "bexc" -> "BE" [] Ending = "unreb" -> "UNREB" [] OTHER -> "none"
 
+HasF == Kind = "remote" /\ Persistent          \* the parent-side forwarding thread F is modelled step by step
 First == CASE Kind = "thread" -> "t_try" [] Kind = "process" -> "c_init" [] Kind = "remote" -> "b_init"
 Work  == IF Persistent THEN "l_recv" ELSE "work"
 InWorkLabels == {"work", "l_recv", "l_run", "l_inc", "l_send"}
@@ -66,6 +70,7 @@ Init == /\ cpc = First /\ curExc = "none" /\ prop = FALSE /\ asyncPend = FALSE /
         /\ bres = (IF Fixed THEN "ErrNone" ELSE "None") /\ usc = "init" /\ usframe = "none"
         /\ done = 0 /\ outq = <<>> /\ started = FALSE /\ finished = FALSE /\ findone = FALSE
         /\ landedAt = "none" /\ landedInTarget = FALSE /\ landedFinished = FALSE /\ landedInWork = FALSE
+        /\ fi = 0 /\ fsig = FALSE /\ pq = <<>> /\ fres = "unset" /\ fpc = "loop"
         /\ usAlive = "na" /\ ctrlAlive = TRUE /\ noCounter = FALSE /\ observed = "none"
 
 \* ---------------------------------------------------------------------------------------------
@@ -102,15 +107,16 @@ Land == /\ os = "run" /\ asyncPend /\ cpc # "exit"
         /\ landedAt' = cpc /\ landedInTarget' = (cpc \in TargetLabels) /\ landedFinished' = finished
         /\ landedInWork' = (cpc \in InWorkLabels \cup {"b_wrap", "t_store"})
         /\ usAlive' = (IF Kind = "thread" THEN "na" ELSE "init")     \* parent copy is untouched while the child lives
-        /\ noCounter' \in (IF Persistent /\ cpc \in {"t_init", "c_init", "b_init"} THEN BOOLEAN ELSE {FALSE})   \* before / after _init_child ran
+        \* before the fix _cleanup() read self._counter, which only exists once _init_child ran
+        /\ noCounter' \in (IF ~Fixed /\ Persistent /\ cpc \in {"t_init", "c_init", "b_init"} THEN BOOLEAN ELSE {FALSE})
         /\ Route("WTE")
-        /\ UNCHANGED <<nterm, nkill, tres, frames, partial, bres, usc, usframe, done, outq, started, ctrlAlive, observed>>
+        /\ UNCHANGED <<nterm, nkill, tres, frames, partial, bres, usc, usframe, done, outq, started, ctrlAlive, observed, fvars>>
 
 Terminate == /\ nterm < MaxTerm /\ nkill = 0 /\ os = "run" /\ cpc # "exit" /\ ~asyncPend /\ landedAt = "none"
              /\ (Kind = "thread" \/ ctrlAlive)
              /\ nterm' = nterm + 1 /\ asyncPend' = TRUE
              /\ UNCHANGED <<cpc, curExc, prop, nkill, os, tres, frames, partial, bres, usc, usframe, done, outq, started, finished,
-                            findone, landedAt, landedInTarget, landedFinished, landedInWork, usAlive, ctrlAlive, noCounter, observed>>
+                            findone, landedAt, landedInTarget, landedFinished, landedInWork, usAlive, ctrlAlive, noCounter, observed, fvars>>
 
 \* the control thread has already been released: nobody raises the exception; after the timeout the child is
 \* SIGTERMed (process: Process.terminate(); remote: the server kills the backend and writes (False, None) itself)
@@ -122,7 +128,7 @@ ForcedTerminate ==
              /\ landedAt' = cpc /\ landedInTarget' = FALSE /\ landedFinished' = finished /\ landedInWork' = FALSE
              /\ usAlive' = "init"
              /\ UNCHANGED <<curExc, prop, asyncPend, nkill, tres, partial, bres, usc, usframe, done, outq, started, finished, findone,
-                            ctrlAlive, noCounter, observed>>
+                            ctrlAlive, noCounter, observed, fvars>>
 
 Kill == /\ Kind # "thread" /\ nkill < MaxKill /\ nterm = 0 /\ os = "run" /\ cpc # "exit"
         /\ nkill' = nkill + 1 /\ Die
@@ -130,7 +136,7 @@ Kill == /\ Kind # "thread" /\ nkill < MaxKill /\ nterm = 0 /\ os = "run" /\ cpc 
         /\ landedAt' = cpc /\ landedInTarget' = (cpc \in TargetLabels) /\ landedFinished' = finished
         /\ landedInWork' = (cpc \in InWorkLabels)
         /\ UNCHANGED <<curExc, prop, asyncPend, nterm, tres, frames, bres, usc, usframe, done, outq, started, finished, findone, usAlive,
-                       ctrlAlive, noCounter, observed>>
+                       ctrlAlive, noCounter, observed, fvars>>
 
 \* ---------------------------------------------------------------------------------------------
 \* the child's own steps
@@ -141,7 +147,7 @@ EndMarker == IF Persistent THEN outq' = Append(outq, 0) ELSE UNCHANGED outq     
 
 ChildStep ==
   /\ os = "run" /\ cpc # "exit"
-  /\ UNCHANGED <<asyncPend, nterm, nkill, partial, landedAt, landedInTarget, landedFinished, landedInWork, usAlive, noCounter, observed>>
+  /\ UNCHANGED <<asyncPend, nterm, nkill, partial, landedAt, landedInTarget, landedFinished, landedInWork, usAlive, noCounter, observed, fvars>>
   /\ ctrlAlive' = (ctrlAlive /\ cpc \notin {"f_rel", "if_rel"})      \* releasing = send None to the control thread, then join it
   /\ CASE \* ---- work: one-shot target, or the persistent loop
           cpc \in {"t_try", "t_init", "c_init", "b_init"} ->
@@ -212,7 +218,7 @@ Shape(w) == CASE w = "ok" -> [alive |-> "F", has_error |-> "F", result |-> IF Pe
               [] w = "WTE" -> [alive |-> "F", has_error |-> "T", result |-> "None", result_n |-> 0, error |-> "WTE"]
               [] w \in {"E", "BE"} -> [alive |-> "F", has_error |-> "T", result |-> "None", result_n |-> 0, error |-> "own"]
               [] w = "ErrNone" -> [alive |-> "F", has_error |-> "T", result |-> "None", result_n |-> 0, error |-> "None"]
-              [] w = "None" -> [alive |-> "F", has_error |-> "None", result |-> "None", result_n |-> 0, error |-> "None"]
+              [] w \in {"None", "unset"} -> [alive |-> "F", has_error |-> "None", result |-> "None", result_n |-> 0, error |-> "None"]
               [] w = "RAISES" -> [alive |-> "F", has_error |-> "raised", result |-> "raised", result_n |-> 0, error |-> "raised"]
               [] w = "UNREB" -> [alive |-> "F", has_error |-> "T", result |-> "None", result_n |-> 0, error |-> "own"]
 Seen ==
@@ -223,7 +229,8 @@ Seen ==
          ELSE IF frames[Len(frames)][1] = "UNREB" THEN (IF Fixed THEN "ErrNone" ELSE "RAISES")
          ELSE frames[Len(frames)][1]
     [] Kind = "remote" ->
-         IF frames = <<>> THEN "ErrNone"
+         IF HasF THEN fres
+         ELSE IF frames = <<>> THEN "ErrNone"
          ELSE IF frames[1][1] = "UNREB" THEN (IF Fixed THEN "ErrNone" ELSE "None")
          ELSE frames[1][1]
 UsEnd == CASE Kind = "thread" -> usc
@@ -231,25 +238,52 @@ UsEnd == CASE Kind = "thread" -> usc
            [] Kind = "remote" -> IF usframe = "none" /\ Len(frames) >= 2 THEN "other"     \* F reads the server's (False, None) as user_state
                                  ELSE IF usframe = "none" \/ (Seen = "ErrNone" /\ frames # <<>> /\ frames[1][1] = "UNREB") THEN "init" ELSE usframe
 
-Observe == /\ os = "dead" /\ observed = "none"
+Observe == /\ os = "dead" /\ observed = "none" /\ (HasF => fpc = "done")
            /\ observed' = "yes"
            /\ UNCHANGED <<cpc, curExc, prop, asyncPend, nterm, nkill, os, tres, frames, partial, bres, usc, usframe, done, outq,
-                          started, finished, findone, landedAt, landedInTarget, landedFinished, landedInWork, usAlive, ctrlAlive, noCounter>>
+                          started, finished, findone, landedAt, landedInTarget, landedFinished, landedInWork, usAlive, ctrlAlive, noCounter, fvars>>
 
 ThreadExit == Kind = "thread" /\ cpc = "exit" /\ os = "run" /\ os' = "dead"
               /\ UNCHANGED <<cpc, curExc, prop, asyncPend, nterm, nkill, tres, frames, partial, bres, usc, usframe, done, outq,
-                             started, finished, findone, landedAt, landedInTarget, landedFinished, landedInWork, usAlive, ctrlAlive, noCounter, observed>>
+                             started, finished, findone, landedAt, landedInTarget, landedFinished, landedInWork, usAlive, ctrlAlive, noCounter, observed, fvars>>
 
-Next == Land \/ Terminate \/ ForcedTerminate \/ Kill \/ ChildStep \/ ThreadExit \/ Observe
-Spec == Init /\ [][Next]_vars /\ WF_vars(ChildStep) /\ WF_vars(Land) /\ WF_vars(ThreadExit) /\ WF_vars(Observe)
+\* ---------------------------------------------------------------------------------------------
+\* persistent REMOTE: the parent-side forwarding thread (PersistentRemoteWorker._fetch_results).  The wire carries, in
+\* order, what the backend wrote: partial results and the end-of-results marker (outq), then the final result frame(s)
+\* (frames; the server may append its own (False, None) after killing the backend).  F forwards results and the marker
+\* into the parent's results pipe, and - current code - writes the marker itself if the stream ends without one.
+\* ---------------------------------------------------------------------------------------------
+WireLen == Len(outq) + Len(frames)
+FStep == /\ HasF /\ fpc = "loop"
+         /\ IF fi < Len(outq)
+            THEN /\ pq' = Append(pq, outq[fi + 1]) /\ fsig' = (fsig \/ outq[fi + 1] = 0)
+                 /\ fi' = fi + 1 /\ UNCHANGED <<fres, fpc>>
+            ELSE IF fi < WireLen
+            THEN /\ fres' = frames[fi - Len(outq) + 1][1] /\ fi' = fi + 1 /\ fpc' = "done"
+                 /\ pq' = (IF Fixed /\ ~fsig THEN Append(pq, 0) ELSE pq) /\ fsig' = (fsig \/ Fixed)
+            ELSE /\ os = "dead"                                  \* ConnectionClosedError: the backend is gone
+                 /\ fres' = "ErrNone" /\ fpc' = "done" /\ UNCHANGED fi
+                 /\ pq' = (IF ~fsig THEN Append(pq, 0) ELSE pq) /\ fsig' = TRUE
+         /\ UNCHANGED <<cpc, curExc, prop, asyncPend, nterm, nkill, os, tres, frames, partial, bres, usc, usframe, done, outq,
+                        started, finished, findone, landedAt, landedInTarget, landedFinished, landedInWork, usAlive, ctrlAlive, noCounter, observed>>
+
+Next == Land \/ Terminate \/ ForcedTerminate \/ Kill \/ ChildStep \/ ThreadExit \/ FStep \/ Observe
+Spec == Init /\ [][Next]_vars /\ WF_vars(ChildStep) /\ WF_vars(Land) /\ WF_vars(ThreadExit) /\ WF_vars(FStep) /\ WF_vars(Observe)
 
 \* ---------------------------------------------------------------------------------------------
 \* projection to the observable record and the properties (operators of LifeProps)
 \* ---------------------------------------------------------------------------------------------
 B(x) == IF x THEN "T" ELSE "F"
 Terminal == observed = "yes"
-Stream == LET nums == SelectSeq(outq, LAMBDA x : x # 0) IN
-          [got |-> nums, end |-> IF Persistent THEN "ended" ELSE "na",     \* after death: end marker, EOF or queue.Empty
+\* what a consumer of the result stream gets: thread/process read what the child wrote (outq); persistent remote reads
+\* what F forwarded (pq).  A consumer already blocked in next_result() is released by the end marker, by EOF on a real
+\* pipe (process kind), or - thread kind, current code - by the parent finishing the dead child's clean up.
+Chan == IF HasF THEN pq ELSE outq
+HasMarker == \E k \in 1..Len(Chan) : Chan[k] = 0
+Stream == LET nums == SelectSeq(Chan, LAMBDA x : x # 0) IN
+          [got |-> nums,
+           end |-> IF ~Persistent THEN "na"
+                   ELSE IF HasMarker \/ Kind = "process" \/ (Kind = "thread" /\ Fixed) THEN "ended" ELSE "blocked",
            again |-> IF Persistent THEN "Empty" ELSE "na"]
 Rec == [scn |-> [kind |-> Kind, persistent |-> B(Persistent), ending |-> Ending, items |-> Items,
                  fault |-> IF landedAt = "none" THEN "none" ELSE IF nkill > 0 THEN "sigkill" ELSE "pause",
